@@ -333,7 +333,7 @@ func TestVerif_C33(t *testing.T) {
 	lsSetup(t)
 	rec := kit.Open(t, "C33",
 		"rapid-generated histories of 2-6 steps over 4 root directories (two with the same base name, one ending in .git): each step mutates the roots (add non-bare / bare / gitfile / root-level / nested repositories and *.git look-alikes, delete, move between roots, rename, new commit, config change, foreign shard written into the index) and then runs `sync` or `remove <selectors>`; the preview runs first, then the same command with -f on the same state (index directory backed up and restored when the step is preview-only); a case = one history; non-trivial = the history performed >= 1 removal and >= 1 re-index of an already indexed name, or synced after a repository move; distinct by hash of the JSON case",
-		"build options are constant across a history (-disable_ctags -submodules=false)",
+		"build options are constant across a history (-disable_ctags -submodules=false -shard_limit N; a third of the histories use a small N so that repositories span several shards)",
 		"`performed` is read from the -f output (Removing / Indexed lines) and from the before/after snapshots of the index directory (deleted, new or rewritten shard files, attributed to repositories by reading the resulting shards); both must equal what the preview announced (Would remove / Would index lines)",
 		"the -f run happens in place on the very same state (sources stored in shards are absolute, a copy at another path would be a different state); the index directory is restored from a byte-and-mtime preserving backup when the step is preview-only",
 		"snapshot = names, kinds, modes, sizes, sha256 and mtimes of everything in the index directory including the directory itself; the lock file and the index directory created by -f are not counted as removals/indexing",
